@@ -21,7 +21,7 @@ type c14Case struct {
 	R     string `json:"r,omitempty"` // replacement
 	Start int    `json:"start"`
 	Len   int    `json:"len"`
-	Recv  string `json:"recv"` // lit | fhir.string | fhir.code | fhir.markdown | fhir.uri | var
+	Recv  string `json:"recv"`  // lit | fhir.string | fhir.code | fhir.markdown | fhir.uri | var
 	ArgsV bool   `json:"argsv"` // deliver arguments through variables
 }
 
